@@ -57,10 +57,10 @@ theorem eval_store_other (x : SExpr R) (m : Mem R) (c : Cell) (v : R) (h : ∀ c
   induction x with
   | cell c' => simp only [SExpr.eval]; exact val_store_other m c c' v (h c' (by simp [SExpr.cellsOf]))
   | const y => rfl
-  | add a b iha ihb | sub a b iha ihb | mul a b iha ihb | div a b iha ihb =>
+  | add a b iha ihb | sub a b iha ihb | mul a b iha ihb | div a b iha ihb | max a b iha ihb | min a b iha ihb =>
     simp only [SExpr.cellsOf, List.mem_append] at h
     simp only [SExpr.eval, iha (fun c' hc => h c' (Or.inl hc)), ihb (fun c' hc => h c' (Or.inr hc))]
-  | neg a ih | noalias a ih =>
+  | neg a ih | noalias a ih | abs a ih =>
     simp only [SExpr.cellsOf] at h
     simp only [SExpr.eval, ih h]
 
@@ -69,7 +69,7 @@ theorem grad_store_other (x : SExpr R) (m : Mem R) (c : Cell) (v : R) (w : Optio
   induction x generalizing w with
   | cell c' => simp only [SExpr.grad, store_isActive, store_gidx]
   | const y => rfl
-  | add a b iha ihb | sub a b iha ihb | mul a b iha ihb | div a b iha ihb =>
+  | add a b iha ihb | sub a b iha ihb | mul a b iha ihb | div a b iha ihb | max a b iha ihb | min a b iha ihb =>
     simp only [SExpr.cellsOf, List.mem_append] at h
     have ha := fun c' hc => h c' (Or.inl hc)
     have hb := fun c' hc => h c' (Or.inr hc)
@@ -77,6 +77,9 @@ theorem grad_store_other (x : SExpr R) (m : Mem R) (c : Cell) (v : R) (w : Optio
   | neg a ih | noalias a ih =>
     simp only [SExpr.cellsOf] at h
     simp only [SExpr.grad, ih _ h]
+  | abs a ih =>
+    simp only [SExpr.cellsOf] at h
+    simp only [SExpr.grad, ih _ h, eval_store_other a m c v h]
 
 /-- the gradient indices pushed by an element are those of its cells -/
 theorem grad_indices (x : SExpr R) (m : Mem R) (T : Nat) (w : Option R) (h : ∀ c' ∈ x.cellsOf, m.gidx c' ≠ T) :
@@ -89,14 +92,24 @@ theorem grad_indices (x : SExpr R) (m : Mem R) (T : Nat) (w : Option R) (h : ∀
     · simp at hp; rw [hp]; exact h c' (by simp [SExpr.cellsOf])
     · simp at hp
   | const y => intro p hp; simp [SExpr.grad] at hp
-  | add a b iha ihb | sub a b iha ihb | mul a b iha ihb | div a b iha ihb =>
+  | add a b iha ihb | sub a b iha ihb | mul a b iha ihb | div a b iha ihb | max a b iha ihb | min a b iha ihb =>
     simp only [SExpr.cellsOf, List.mem_append] at h
     intro p hp
     simp only [SExpr.grad, List.mem_append] at hp
     cases hp with
-    | inl hp => exact iha _ (fun c' hc => h c' (Or.inl hc)) p hp
-    | inr hp => exact ihb _ (fun c' hc => h c' (Or.inr hc)) p hp
-  | neg a ih | noalias a ih =>
+    | inl hp =>
+      first
+        | exact iha _ (fun c' hc => h c' (Or.inl hc)) p hp
+        | (split at hp
+           · exact iha _ (fun c' hc => h c' (Or.inl hc)) p hp
+           · simp at hp)
+    | inr hp =>
+      first
+        | exact ihb _ (fun c' hc => h c' (Or.inr hc)) p hp
+        | (split at hp
+           · simp at hp
+           · exact ihb _ (fun c' hc => h c' (Or.inr hc)) p hp)
+  | neg a ih | noalias a ih | abs a ih =>
     simp only [SExpr.cellsOf] at h
     intro p hp
     simp only [SExpr.grad] at hp
@@ -654,5 +667,63 @@ theorem reduceDim_eqv (f : RFun) (tot : Cell) (e : AExpr R) (rd : List Nat) (k :
       (rd.getD k 0) a
     rw [hv]
     exact (hs.store tot v).store _ _
+
+/-! ### `reduce_dimension`'s own odometer -/
+
+theorem reduceStripLit_eq (f : RFun) (tot : Cell) (e : AExpr R) (k d : Nat) (res : View) (s : St R) (rj : List Nat)
+    (hk : k ≤ rj.length) :
+    reduceStripLit f tot e k d res s (insertAt rj k 0) rj = reduceStrip f tot e k d res s rj := by
+  unfold reduceStripLit reduceStrip
+  simp only [insertAt_set rj k _ hk]
+
+/-- the `do { strip; advance i and inew } while (my_rank >= 0)` loop of the active `reduce_dimension` takes the strips in
+    index order of the result, `i` being `inew` with the reduced dimension put back -/
+theorem stripsLoop_eq (f : RFun) (tot : Cell) (e : AExpr R) (rd : List Nat) (k : Nat) (res : View) (hp : AllPos rd)
+    (hk : k < rd.length) (s : St R) :
+    stripsLoop f tot e rd k res (prod (dropAt rd k)) (insertAt (zeros (dropAt rd k).length) k 0)
+        (zeros (dropAt rd k).length) s =
+      (List.range (prod (dropAt rd k))).foldl
+        (fun s p => reduceStrip f tot e k (rd.getD k 0) res s (unflatR (dropAt rd k) p)) s := by
+  have hlen : ∀ p, k ≤ (unflatR (dropAt rd k) p).length := by
+    intro p; rw [unflatR_length, dropAt_length rd k hk]; omega
+  have key : ∀ m p (s : St R), p + m = prod (dropAt rd k) → 0 < m →
+      stripsLoop f tot e rd k res m (insertAt (unflatR (dropAt rd k) p) k 0) (unflatR (dropAt rd k) p) s =
+        (List.range' p m).foldl
+          (fun s p => reduceStrip f tot e k (rd.getD k 0) res s (unflatR (dropAt rd k) p)) s := by
+    intro m
+    induction m with
+    | zero => intro p s _ h; omega
+    | succ m ih =>
+      intro p s hpm _
+      have hlt : p < prod (dropAt rd k) := by omega
+      simp only [stripsLoop]
+      rw [advStrip_unflat rd k hp hk p hlt, reduceStripLit_eq f tot e k _ res s _ (hlen p)]
+      by_cases hn : p + 1 < prod (dropAt rd k)
+      · rw [if_pos hn]
+        simp only [Bool.false_eq_true, if_false]
+        rw [ih (p + 1) _ (by omega) (by omega)]
+        rw [List.range'_succ, List.foldl_cons]
+      · rw [if_neg hn]
+        simp only [if_true]
+        have : m = 0 := by omega
+        subst this
+        simp [List.range']
+  have hpos := prod_pos (hp.dropAt k)
+  have := key (prod (dropAt rd k)) 0 s (by omega) hpos
+  rw [unflatR_zero] at this
+  rw [this, List.range_eq_range']
+
+/-- **the transcription of `reduce_dimension` (active) equals the reference form** whose strips are taken in index
+    order of the result -/
+theorem reduceDimLit_eq (f : RFun) (tot : Cell) (e : AExpr R) (rd : List Nat) (k : Nat) (res : View) (hp : AllPos rd)
+    (hk : k < rd.length) (s : St R) :
+    reduceDimLit f tot e rd k res s = reduceDim f tot e rd k res s := by
+  unfold reduceDimLit reduceDim
+  have h1 : rd.length = (rd.length - 1) + 1 := by omega
+  have hz : zeros rd.length = insertAt (zeros (dropAt rd k).length) k 0 := by
+    rw [dropAt_length rd k hk, zeros_insertAt (rd.length - 1) k (by omega), ← h1]
+  have hz2 : zeros (rd.length - 1) = zeros (dropAt rd k).length := by rw [dropAt_length rd k hk]
+  rw [hz, hz2]
+  exact stripsLoop_eq f tot e rd k res hp hk s
 
 end Adept.ArrayAD
